@@ -157,6 +157,11 @@ class Interp:
             return "raise", r.kind
         except Stopped:
             return "stopped", self.stopped_at
+        except (ValueError, IndexError) as e:
+            if not self.tensors:
+                raise
+            # shapes that do not broadcast / an index out of range: the tensor library raises here too
+            return "raise", f"RuntimeError ({type(e).__name__}: {str(e)[:80]})"
         return "return", None
 
     def _store(self, t: ast.AST, v, env: dict):
@@ -169,6 +174,20 @@ class Interp:
                 raise NotEvaluable("unpacking")
             for el, x in zip(t.elts, v):
                 self._store(el, x, env)
+        elif isinstance(t, ast.Subscript) and self.tensors and isinstance(t.value, ast.Name):
+            # X[idx] = v on an exact tensor: the name is re-bound to an updated copy
+            import numpy as np
+            from .teval import _as_exact, _index
+            base = env.get(t.value.id)
+            if not isinstance(base, np.ndarray):
+                raise NotEvaluable("indexed store into a non-tensor")
+            idx = _index(t.slice, lambda e_: self.eval(e_, env))
+            out = np.array(base, dtype=object if base.dtype != bool or not isinstance(v, (bool, np.ndarray)) else bool, copy=True)
+            try:
+                out[idx] = _as_exact(v) if out.dtype == object else v
+            except (ValueError, IndexError, TypeError):
+                raise NotEvaluable("indexed store shapes")
+            env[t.value.id] = out
         else:
             raise NotEvaluable(f"store to {type(t).__name__}")
 
@@ -202,7 +221,7 @@ class Interp:
                 if st.value is not None:
                     self._store(st.target, self.eval(st.value, env), env)
             elif isinstance(st, ast.AugAssign):
-                if not isinstance(st.target, (ast.Name, ast.Attribute)):
+                if not isinstance(st.target, (ast.Name, ast.Attribute)) and not (self.tensors and isinstance(st.target, ast.Subscript)):
                     raise NotEvaluable("augmented store")
                 load = ast.parse(u(st.target), mode="eval").body
                 cur, val = self.eval(load, env), self.eval(st.value, env)
